@@ -624,6 +624,8 @@ class Executor(object):
             return self._field_mode(fdef, ftype, nodes, path, fpath, depth)
         options = W.field_options(sm, ftype)
         outcome = self.world.get(pathkey, options[0])
+        if outcome == "errS":
+            outcome = "err"  # a ResolverError instance shared by several fields: same expectations
         self.res.trace.append((pathkey, options))
         if outcome not in options:
             raise Unsupported("outcome %r not possible for %s" % (outcome, fdef["type"]))
